@@ -557,7 +557,7 @@ func (c *check) Init(tier string, seed int64) engine.Space {
 		"zoom":                     []float32{1, 0.5, 2}, "page": "100x140 px, <= 3 forced pages", "engine": "pango, Ahem",
 		"reference_self_test": map[bool]string{true: "ok", false: c.selfTest}[c.selfTest == ""],
 	}
-	budget := 100.0
+	budget := 150.0
 	if thorough {
 		budget = 1400
 	}
